@@ -16,7 +16,7 @@ import (
 func init() {
 	register(&propDef{
 		ID:          "C03",
-		Explanation: "Decides that the escaping tables and the routing into them are complete and correctly selected — not the behaviour of a JavaScript engine on the output: R1 the replacement tables applied inside string literals (the per-call table, the low-unicode table and the explicit switch arms of the escaper, all constant-evaluated from the source) map every code point of the required set — U+0000–U+001F, \" ' ` \\, < > &, / (a value starting with /script after a literal < in the author's own script text would otherwise end the element), U+2028, U+2029 and $ (the template-literal interpolation opener, because backtick literals use the same escaper) — to a replacement that does not contain the code point and is an escape of that same code point; R2 no non-test code in the module calls SetEscapeHTML, so every JSON encoder feeding a script position keeps encoding/json's HTML-safe escaping; R3 in SafeScript/SafeScriptInline the function name is used only after the name-pattern test replaced invalid names by a constant, the pattern's alphabet is within [$_a-zA-Z0-9.], every argument is written as jsonEncodeParam(arg) (and through the HTML escaper for the attribute form), JSFuncCall uses SafeScript and JSUnsafeFuncCall HTML-escapes its call; R4 the generator emits the in-literal escaper exactly on the branch where the script content is marked InsideStringLiteral, the sink writes the variable defined by that call, and the parser passes `delimiter != none` as that mark with the three JS quote characters as delimiters; R5 in the runtime selector both in-literal returns go through the replacement table and the bare return is the JSON encoding. NOT decided: that evaluating the emitted JavaScript yields an equal value; the parser's quote tracking on arbitrary JS (regex literals, comments in strings).",
+		Explanation: "Decides that the escaping tables and the routing into them are complete and correctly selected — not the behaviour of a JavaScript engine on the output: R1 the replacement tables applied inside string literals (the per-call table, the low-unicode table and the explicit switch arms of the escaper, all constant-evaluated from the source) map every code point of the required set — U+0000–U+001F, \" ' ` \\, < > &, / (a value starting with /script after a literal < in the author's own script text would otherwise end the element), U+2028, U+2029 and $ (the template-literal interpolation opener, because backtick literals use the same escaper) — to a replacement that does not contain the code point and is an escape of that same code point; R2 no non-test code in the module calls SetEscapeHTML, so every JSON encoder feeding a script position keeps encoding/json's HTML-safe escaping; R3 in SafeScript/SafeScriptInline the function name is used only after the name-pattern test replaced invalid names by a constant, the pattern's alphabet is within [$_a-zA-Z0-9.], every argument is written as jsonEncodeParam(arg) (and through the HTML escaper for the attribute form), JSFuncCall uses SafeScript and JSUnsafeFuncCall HTML-escapes its call; R4 the generator emits the in-literal escaper exactly on the branch where the script content is marked InsideStringLiteral, the sink writes the variable defined by that call, and the parser passes `delimiter != none` as that mark with the three JS quote characters as delimiters, and the script character reader has an alternative `\\`+any rune ahead of its catch-all (a backslash and the next character are one unit, so an escaped delimiter does not end the literal in the parser's view); R5 in the runtime selector both in-literal returns go through the replacement table and the bare return is the JSON encoding. NOT decided: that evaluating the emitted JavaScript yields an equal value; the parser's quote tracking on arbitrary JS (regex literals, comments in strings).",
 		Assumptions: []string{"encoding/json escapes < > & U+2028 U+2029 unless SetEscapeHTML(false)", "a JS engine decodes \\uXXXX, \\t \\n \\f \\r \\\\ \\/ inside string and template literals to the named code point"},
 		Trusted:     []string{"go/types", "go/parser", "x/tools go/packages, go/ssa", "encoding/json", "regexp/syntax"},
 		Run:         runC03,
@@ -556,6 +556,8 @@ func runC03(c *Ctx) {
 		c.check(stored, "C03.R4", funcKey(pp, fd)+"|stores-flag", c.pos(fd.Pos()), "InsideStringLiteral: <flag parameter>", "NewScriptContentsGo does not store its flag in InsideStringLiteral")
 	}
 
+	scriptEscapeUnit(c, "C03.R4")
+
 	// R5 ------------------------------------------------------------
 	rsp := c.ssaPkg("runtime")
 	var sel *ssa.Function
@@ -685,3 +687,177 @@ func mentionsBoolParam(v ssa.Value, depth int) bool {
 }
 
 func tp0(c *Ctx) *packages.Package { return c.pkg(".") }
+
+// scriptEscapeUnit: C03.R4 — inside a script element the parser reads a backslash and the character after it as ONE
+// unit, whatever that character is. The in-literal / outside-literal decision for every {{ }} depends on it: if
+// `\` + delimiter were read as two characters, an escaped quote or backtick would end the literal in the parser's view
+// and the following value would get the outside-literal (JSON) encoding inside what the browser still treats as a
+// string or template literal.
+func scriptEscapeUnit(c *Ctx, rule string) {
+	pp := c.pkg("parser/v2")
+	info := pp.TypesInfo
+	isParse := func(e ast.Expr, name string) bool {
+		var id *ast.Ident
+		switch e := ast.Unparen(e).(type) {
+		case *ast.SelectorExpr:
+			id = e.Sel
+		case *ast.IndexExpr: // explicit instantiation
+			if se, ok := e.X.(*ast.SelectorExpr); ok {
+				id = se.Sel
+			}
+		}
+		if id == nil || id.Name != name {
+			return false
+		}
+		ob := info.Uses[id]
+		return ob != nil && ob.Pkg() != nil && ob.Pkg().Path() == "github.com/a-h/parse"
+	}
+	// package-level initialisers
+	inits := map[types.Object]ast.Expr{}
+	for _, f := range pp.Syntax {
+		for _, d := range f.Decls {
+			gd, ok := d.(*ast.GenDecl)
+			if !ok || gd.Tok != token.VAR {
+				continue
+			}
+			for _, sp := range gd.Specs {
+				vs := sp.(*ast.ValueSpec)
+				for i, nm := range vs.Names {
+					if i < len(vs.Values) {
+						inits[info.Defs[nm]] = vs.Values[i]
+					}
+				}
+			}
+		}
+	}
+	resolve := func(e ast.Expr) ast.Expr {
+		for i := 0; i < 8; i++ {
+			id, ok := ast.Unparen(e).(*ast.Ident)
+			if !ok {
+				return e
+			}
+			in, ok := inits[info.ObjectOf(id)]
+			if !ok {
+				return e
+			}
+			e = in
+		}
+		return e
+	}
+	var flatten func(e ast.Expr, depth int) []ast.Expr
+	flatten = func(e ast.Expr, depth int) []ast.Expr {
+		r := resolve(e)
+		if call, ok := r.(*ast.CallExpr); ok && isParse(call.Fun, "Any") && depth < 6 {
+			var out []ast.Expr
+			for _, a := range call.Args {
+				out = append(out, flatten(a, depth+1)...)
+			}
+			return out
+		}
+		return []ast.Expr{r}
+	}
+	isBackslashAny := func(e ast.Expr) (bool, string) {
+		call, ok := e.(*ast.CallExpr)
+		if !ok || !isParse(call.Fun, "StringFrom") || len(call.Args) != 2 {
+			return false, ""
+		}
+		a0, ok := resolve(call.Args[0]).(*ast.CallExpr)
+		if !ok || !isParse(a0.Fun, "String") || len(a0.Args) != 1 {
+			return false, ""
+		}
+		if s, isC := constString(info, a0.Args[0]); !isC || s != `\` {
+			return false, ""
+		}
+		second := resolve(call.Args[1])
+		if isParse(second, "AnyRune") {
+			return true, ""
+		}
+		return false, types.ExprString(second)
+	}
+	// the character reader: `<c>, ok, err := <X>.Parse(pi)` where <c> is compared with a quote constant
+	found := false
+	for _, fd := range allFuncDecls(pp) {
+		quoteVars := map[types.Object]bool{}
+		ast.Inspect(fd.Body, func(n ast.Node) bool {
+			if be, ok := n.(*ast.BinaryExpr); ok && be.Op == token.EQL {
+				if s, isC := constString(info, be.Y); isC && len(s) == 1 && strings.ContainsAny(s, "\"'`") {
+					if id, ok := be.X.(*ast.Ident); ok {
+						quoteVars[info.ObjectOf(id)] = true
+					}
+				}
+			}
+			return true
+		})
+		if len(quoteVars) == 0 {
+			continue
+		}
+		ast.Inspect(fd.Body, func(n ast.Node) bool {
+			as, ok := n.(*ast.AssignStmt)
+			if !ok || len(as.Rhs) != 1 || len(as.Lhs) < 1 {
+				return true
+			}
+			lid, ok := as.Lhs[0].(*ast.Ident)
+			if !ok || !quoteVars[info.ObjectOf(lid)] {
+				return true
+			}
+			call, ok := as.Rhs[0].(*ast.CallExpr)
+			if !ok {
+				return true
+			}
+			se, ok := call.Fun.(*ast.SelectorExpr)
+			if !ok || se.Sel.Name != "Parse" {
+				return true
+			}
+			if _, isPkgVar := inits[info.ObjectOf(rootIdent(se.X))]; !isPkgVar {
+				return true
+			}
+			found = true
+			alts := flatten(se.X, 0)
+			iCatch, iEsc := -1, -1
+			narrowed := ""
+			for i, a := range alts {
+				if isParse(a, "AnyRune") && iCatch < 0 {
+					iCatch = i
+				}
+				if okb, nar := isBackslashAny(a); okb && iEsc < 0 {
+					iEsc = i
+				} else if nar != "" {
+					narrowed = nar
+				}
+			}
+			key := funcKey(pp, fd) + "|" + types.ExprString(se.X)
+			why := ""
+			switch {
+			case iEsc < 0 && narrowed != "":
+				why = "the backslash escape only accepts `" + narrowed + "` after the backslash: `\\` followed by any other character (for example an escaped backtick or quote that is not in the set) is read as two characters"
+			case iEsc < 0:
+				why = "no alternative reads a backslash together with the following character"
+			case iCatch >= 0 && iCatch < iEsc:
+				why = "the catch-all single-rune alternative comes before the backslash escape, which can then never match"
+			}
+			c.check(why == "", rule, key+"|backslash-consumes-next-rune", c.pos(as.Pos()), fmt.Sprintf("%d alternatives; `\\`+any rune is alternative %d, before the catch-all %d", len(alts), iEsc, iCatch),
+				"script character reader "+types.ExprString(se.X)+": "+why+". An escaped delimiter then ends the literal in the parser's view, and a following {{ value }} is JSON-encoded although the browser is still inside the string / template literal (${…} in the value executes)")
+			return true
+		})
+	}
+	if !found {
+		c.viol(rule, "anchor-lost:script-character-reader", "", "no `<c>, ok, err := <package-level parser>.Parse(pi)` whose result is compared with the quote characters was found in parser/v2")
+	}
+}
+
+func rootIdent(e ast.Expr) *ast.Ident {
+	for {
+		switch x := ast.Unparen(e).(type) {
+		case *ast.Ident:
+			return x
+		case *ast.SelectorExpr:
+			e = x.X
+		case *ast.CallExpr:
+			e = x.Fun
+		case *ast.IndexExpr:
+			e = x.X
+		default:
+			return &ast.Ident{Name: "_"}
+		}
+	}
+}
